@@ -162,6 +162,63 @@ pub fn cross_check(img: &Image, truth: &Truth) -> Result<(), String> {
     Ok(())
 }
 
+/// a user supplied OEM code page: bytes 0x80..=0xFF <-> U+0100..U+017F
+#[derive(Debug, Clone, Copy)]
+pub struct UpConv;
+
+impl fatfs::OemCpConverter for UpConv {
+    fn decode(&self, b: u8) -> char {
+        if b < 0x80 {
+            b as char
+        } else {
+            char::from_u32(0x100 + u32::from(b - 0x80)).unwrap()
+        }
+    }
+    fn encode(&self, c: char) -> Option<u8> {
+        let u = c as u32;
+        if u < 0x80 {
+            Some(u as u8)
+        } else if (0x100..0x180).contains(&u) {
+            Some((u - 0x100) as u8 + 0x80)
+        } else {
+            None
+        }
+    }
+}
+
+/// second mount with a custom OEM converter: short names must be decoded with it and be found under that spelling
+fn oem_pass(img: &Image, truth: &Truth) -> Result<(), (String, String)> {
+    use fatfs::OemCpConverter;
+    let dev = MonDev::new(img.clone());
+    dev.set_logging(false, false);
+    let fs: fatfs::FileSystem<MonDev, Clock, UpConv> = fatfs::FileSystem::new(dev.handle(), fatfs::FsOptions::new().time_provider(Clock::new(300)).oem_cp_converter(UpConv)).map_err(|e| ("mount-failed".to_string(), format!("{:?}", e)))?;
+    let root = fs.root_dir();
+    let res = (|| {
+        for t in &truth.root {
+            if t.long.is_some() {
+                continue;
+            }
+            let disp: String = fatck::short_display(&t.sfn).iter().map(|b| UpConv.decode(*b)).collect();
+            let r = if t.is_dir { root.open_dir(&disp).map(|_| ()) } else { root.open_file(&disp).map(|_| ()) };
+            if let Err(e) = r {
+                return Err(("oem-lookup".to_string(), format!("entry {:?} is not found under its name \"{}\" decoded with the configured OEM converter: {:?}", t.sfn, crate::util::show_str(&disp), e)));
+            }
+        }
+        #[cfg(not(feature = "v_noalloc"))]
+        for e in root.iter() {
+            let e = e.map_err(|e| ("iter-error".to_string(), format!("{:?}", e)))?;
+            let want: String = e.short_file_name_as_bytes().iter().map(|b| UpConv.decode(*b)).collect();
+            if e.short_file_name() != want {
+                return Err(("oem-decode".to_string(), format!("short_file_name() = \"{}\", configured converter gives \"{}\"", crate::util::show_str(&e.short_file_name()), crate::util::show_str(&want))));
+            }
+        }
+        Ok(())
+    })();
+    drop(root);
+    std::mem::forget(fs);
+    res
+}
+
 pub fn mount(img: &Image) -> (MonDev, Result<Fs, fatfs::Error<crate::dev::DevError>>) {
     let dev = MonDev::new(img.clone());
     dev.set_logging(true, false);
@@ -215,6 +272,15 @@ pub fn run(args: &Args, rep: &mut Report) {
                 if lbl != truth_ref.label {
                     return Err(("label".to_string(), format!("root label read as {:?}, stored {:?}", lbl, truth_ref.label)));
                 }
+                #[cfg(not(feature = "v_noalloc"))]
+                {
+                    let l2 = fs.read_volume_label_from_root_dir().map_err(|e| ("label-error".to_string(), format!("{:?}", e)))?;
+                    let want = truth_ref.label.map(|l| String::from_utf8_lossy(&l).trim_end().to_string());
+                    if l2 != want || fs.volume_label() != "BPB LABEL" {
+                        return Err(("label-string".to_string(), format!("labels as strings: root {:?} (stored {:?}), BPB {:?}", l2, want, fs.volume_label())));
+                    }
+                }
+                oem_pass(&img, truth_ref)?;
                 if fs.volume_label_as_bytes() != b"BPB LABEL" || fs.volume_id() != 0xCAFE_F00D {
                     return Err(("bpb-label".to_string(), format!("BPB label {:?} id {:#x}", fs.volume_label_as_bytes(), fs.volume_id())));
                 }
